@@ -10,6 +10,76 @@ fn h<T: Hash>(t: &T) -> u64 {
     s.finish()
 }
 
+/// A serializer of a compact binary kind (is_human_readable() == false) that accepts only what a
+/// URL newtype may write: one string.  The text a value serialises as must not depend on the format.
+pub struct BinaryStr;
+#[derive(Debug)]
+pub struct SerErr(String);
+impl std::fmt::Display for SerErr {
+    fn fmt(&self, f: &mut std::fmt::Formatter) -> std::fmt::Result {
+        f.write_str(&self.0)
+    }
+}
+impl std::error::Error for SerErr {}
+impl serde::ser::Error for SerErr {
+    fn custom<T: std::fmt::Display>(m: T) -> Self {
+        SerErr(m.to_string())
+    }
+}
+macro_rules! no {
+    ($($f:ident($($t:ty),*))*) => { $(fn $f(self $(, _: $t)*) -> Result<String, SerErr> { Err(SerErr(stringify!($f).into())) })* };
+}
+impl serde::Serializer for BinaryStr {
+    type Ok = String;
+    type Error = SerErr;
+    type SerializeSeq = serde::ser::Impossible<String, SerErr>;
+    type SerializeTuple = serde::ser::Impossible<String, SerErr>;
+    type SerializeTupleStruct = serde::ser::Impossible<String, SerErr>;
+    type SerializeTupleVariant = serde::ser::Impossible<String, SerErr>;
+    type SerializeMap = serde::ser::Impossible<String, SerErr>;
+    type SerializeStruct = serde::ser::Impossible<String, SerErr>;
+    type SerializeStructVariant = serde::ser::Impossible<String, SerErr>;
+    fn is_human_readable(&self) -> bool {
+        false
+    }
+    fn serialize_str(self, v: &str) -> Result<String, SerErr> {
+        Ok(v.to_string())
+    }
+    fn serialize_newtype_struct<T: ?Sized + serde::Serialize>(self, _n: &'static str, v: &T) -> Result<String, SerErr> {
+        v.serialize(self)
+    }
+    fn serialize_some<T: ?Sized + serde::Serialize>(self, v: &T) -> Result<String, SerErr> {
+        v.serialize(self)
+    }
+    no! { serialize_bool(bool) serialize_i8(i8) serialize_i16(i16) serialize_i32(i32) serialize_i64(i64) serialize_u8(u8) serialize_u16(u16)
+          serialize_u32(u32) serialize_u64(u64) serialize_f32(f32) serialize_f64(f64) serialize_char(char) serialize_bytes(&[u8]) serialize_none()
+          serialize_unit() serialize_unit_struct(&'static str) serialize_unit_variant(&'static str, u32, &'static str) }
+    fn serialize_newtype_variant<T: ?Sized + serde::Serialize>(self, _: &'static str, _: u32, _: &'static str, _: &T) -> Result<String, SerErr> {
+        Err(SerErr("newtype_variant".into()))
+    }
+    fn serialize_seq(self, _: Option<usize>) -> Result<Self::SerializeSeq, SerErr> {
+        Err(SerErr("seq".into()))
+    }
+    fn serialize_tuple(self, _: usize) -> Result<Self::SerializeTuple, SerErr> {
+        Err(SerErr("tuple".into()))
+    }
+    fn serialize_tuple_struct(self, _: &'static str, _: usize) -> Result<Self::SerializeTupleStruct, SerErr> {
+        Err(SerErr("tuple_struct".into()))
+    }
+    fn serialize_tuple_variant(self, _: &'static str, _: u32, _: &'static str, _: usize) -> Result<Self::SerializeTupleVariant, SerErr> {
+        Err(SerErr("tuple_variant".into()))
+    }
+    fn serialize_map(self, _: Option<usize>) -> Result<Self::SerializeMap, SerErr> {
+        Err(SerErr("map".into()))
+    }
+    fn serialize_struct(self, _: &'static str, _: usize) -> Result<Self::SerializeStruct, SerErr> {
+        Err(SerErr("struct".into()))
+    }
+    fn serialize_struct_variant(self, _: &'static str, _: u32, _: &'static str, _: usize) -> Result<Self::SerializeStructVariant, SerErr> {
+        Err(SerErr("struct_variant".into()))
+    }
+}
+
 macro_rules! one {
     ($t:ident, $s:expr) => {{
         let s: String = $s;
@@ -30,6 +100,15 @@ macro_rules! one {
                 let disp = format!("{}", v);
                 let deref: &String = &v;
                 let ser: String = serde_json::from_str(&serde_json::to_string(&v).unwrap()).unwrap();
+                // the same text through a non-human-readable format and through serde_json::Value,
+                // and back from a plain string deserializer
+                let ser_bin = serde::Serialize::serialize(&v, BinaryStr).unwrap_or_else(|e| format!("SER-ERROR {}", e));
+                let ser_val = serde_json::to_value(&v).ok().and_then(|j| j.as_str().map(|x| x.to_string())).unwrap_or_default();
+                let de_plain: Result<$t, serde::de::value::Error> =
+                    serde::Deserialize::deserialize(serde::de::value::StringDeserializer::new(ser.clone()));
+                if ser_bin != ser || ser_val != ser || de_plain.map(|x| x.as_str().to_string()).ok() != Some(ser.clone()) {
+                    return format!("serialised-text-depends-on-format json={} binary={} value={}", tok_bytes(ser.as_bytes()), tok_bytes(ser_bin.as_bytes()), tok_bytes(ser_val.as_bytes()));
+                }
                 let show = |de: Result<$t, serde_json::Error>| match de {
                     Ok(v2) => format!(
                         "ok,{},{},{}",
